@@ -173,7 +173,7 @@ func runC16(c *Ctx) {
 				whyArm = "timer callback is not a function literal"
 				return
 			}
-			cl := mc.Fn.(*ssa.Function)
+			cl := w.closureBody(mc)
 			rm := w.Func("allocation", "Allocation", "RemoveTCPConnection")
 			okCl := false
 			w.eachInstr(cl, func(in2 ssa.Instruction) {
@@ -261,23 +261,33 @@ func runC16(c *Ctx) {
 		type cp struct{ dst, src string }
 		var copies []cp
 		inGo := 0
-		for _, f := range h.AnonFuncs {
-			started := false
-			w.eachInstr(h, func(in ssa.Instruction) {
-				if g, ok := in.(*ssa.Go); ok {
-					if mc, isMC := g.Call.Value.(*ssa.MakeClosure); isMC && mc.Fn == ssa.Value(f) {
-						started = true
+		// the handler's body: itself and its single-call-site helpers; the pipe's goroutines
+		// are function literals of those
+		var bodies []*ssa.Function
+		for _, f := range w.helpersOf(h) {
+			if f.Parent() == nil {
+				bodies = append(bodies, f)
+			}
+		}
+		for _, body := range bodies {
+			for _, f := range body.AnonFuncs {
+				started := false
+				w.eachInstr(body, func(in ssa.Instruction) {
+					if g, ok := in.(*ssa.Go); ok {
+						if mc, isMC := g.Call.Value.(*ssa.MakeClosure); isMC && mc.Fn == ssa.Value(f) {
+							started = true
+						}
 					}
-				}
-			})
-			w.eachInstr(f, func(in ssa.Instruction) {
-				if call, ok := in.(*ssa.Call); ok && call.Call.StaticCallee() != nil && call.Call.StaticCallee().String() == "io.Copy" {
-					copies = append(copies, cp{connRole(w, call.Call.Args[0], tcpGet), connRole(w, call.Call.Args[1], tcpGet)})
-					if started {
-						inGo++
+				})
+				w.eachInstr(f, func(in ssa.Instruction) {
+					if call, ok := in.(*ssa.Call); ok && call.Call.StaticCallee() != nil && call.Call.StaticCallee().String() == "io.Copy" {
+						copies = append(copies, cp{connRole(w, call.Call.Args[0], tcpGet), connRole(w, call.Call.Args[1], tcpGet)})
+						if started {
+							inGo++
+						}
 					}
-				}
-			})
+				})
+			}
 		}
 		c.Anchor("C16.6", "two directions")
 		if len(copies) == 2 && inGo == 2 && copies[0].dst == copies[1].src && copies[0].src == copies[1].dst && copies[0].dst != copies[0].src &&
@@ -288,21 +298,23 @@ func runC16(c *Ctx) {
 		}
 		c.Anchor("C16.6", "close both")
 		closed := map[string]bool{}
-		var wait ssa.Instruction
-		w.eachInstr(h, func(in ssa.Instruction) {
-			if u, ok := in.(*ssa.UnOp); ok && u.Op.String() == "<-" {
-				wait = in
-			}
-		})
-		w.eachInstr(h, func(in ssa.Instruction) {
-			call, ok := in.(*ssa.Call)
-			if !ok || !call.Call.IsInvoke() || call.Call.Method.Name() != "Close" {
-				return
-			}
-			if wait != nil && instrReaches(wait, in) {
-				closed[connRole(w, call.Call.Value, tcpGet)] = true
-			}
-		})
+		for _, body := range bodies {
+			var wait ssa.Instruction
+			w.eachInstr(body, func(in ssa.Instruction) {
+				if u, ok := in.(*ssa.UnOp); ok && u.Op.String() == "<-" {
+					wait = in
+				}
+			})
+			w.eachInstr(body, func(in ssa.Instruction) {
+				call, ok := in.(*ssa.Call)
+				if !ok || !call.Call.IsInvoke() || call.Call.Method.Name() != "Close" {
+					return
+				}
+				if wait != nil && instrReaches(wait, in) {
+					closed[connRole(w, call.Call.Value, tcpGet)] = true
+				}
+			})
+		}
 		if closed["peer"] && closed["client"] {
 			c.OK("C16.6", fname(h), "close both", w.pos(h.Pos()), "peer and client connections are closed after the first copy completes")
 		} else {
